@@ -164,6 +164,18 @@ func runC15(c *core.Ctx) {
 			w.LogText = gen.RenderLog(w.Log, w.Layout, nil)
 			c.Count("inputs_with_colliding_shortened_names", 1)
 		}
+		if i%3 == 1 {
+			// a name that is an entry and a category at once, the category with a single leaf below it
+			base := w.Unknown
+			if len(base) == 0 {
+				base = w.Basics
+			}
+			n0 := base[r.Intn(len(base))]
+			d := r.Intn(len(w.Log))
+			w.Log[d].Ents = append(w.Log[d].Ents, gen.Ent{Name: n0, Val: gen.Half(5)}, gen.Ent{Name: n0 + "/latte", Val: gen.Half(3)})
+			w.LogText = gen.RenderLog(w.Log, w.Layout, nil)
+			c.Count("inputs_with_a_name_that_is_entry_and_category", 1)
+		}
 		files := w.Files()
 		srv.Write(files)
 		runArgs := func(args ...string) run.Result {
@@ -362,6 +374,66 @@ func runC15(c *core.Ctx) {
 			}
 			if bad != "" {
 				c.Violation(strings.Join(cmd[:2], " ")+"|desc", bad, doc("", descArgs, desc, asc))
+			}
+		}
+		// (g) the collapse modes of the balance change the layout only: every row they print is a row of the
+		// plain tree (same full path, same printed amount) and the grand total of -s is the same. The exact
+		// shape of the collapsed tree is C03's business. A name that is an entry and a category at once makes
+		// the interesting case (added to a third of the inputs).
+		for _, sel := range [][]string{nil, {"-s", x}} {
+			plain := runArgs(append([]string{"--no-color", "bal"}, sel...)...)
+			pb, e0 := obs.ParseBal(plain.Out)
+			if e0 != nil || plain.Exit != 0 {
+				continue
+			}
+			ppaths, _, e1 := obs.BalPaths(pb.Rows)
+			pm := map[string]string{}
+			unique := e1 == nil
+			for k, pth := range ppaths {
+				if _, dup := pm[pth]; dup {
+					unique = false
+				}
+				pm[pth] = pb.Rows[k].Raw
+			}
+			if !unique {
+				c.Count("collapse_relation_skipped_ambiguous_paths", 1)
+				continue
+			}
+			for _, mode := range []string{"-c", "--collapse-last"} {
+				margs := append(append([]string{"--no-color", "bal"}, sel...), mode)
+				alt := runArgs(margs...)
+				c.Count("collapse_pairs", 1)
+				ab, e2 := obs.ParseBal(alt.Out)
+				bad := ""
+				if e2 != nil || alt.Exit != 0 {
+					bad = fmt.Sprint("fails or unparsable: ", e2, " exit ", alt.Exit)
+				} else if apaths, _, e3 := obs.BalPaths(ab.Rows); e3 != nil {
+					bad = e3.Error()
+				} else {
+					// a row that joins several segments stands for the sub-tree below the first of them: it carries
+					// that node's amount (otherwise what is logged on the category itself would vanish from the sums)
+					var stack []string
+					for k, pth := range apaths {
+						row := ab.Rows[k]
+						stack = stack[:row.Level]
+						head := strings.SplitN(row.Label, "/", 2)[0]
+						if row.Level > 0 {
+							head = stack[row.Level-1] + "/" + head
+						}
+						stack = append(stack, pth)
+						if _, ok := pm[pth]; !ok {
+							bad = fmt.Sprintf("row %q is not a node of the plain tree", pth)
+						} else if raw := pm[head]; raw != row.Raw {
+							bad = fmt.Sprintf("row %q shows %s, the plain tree shows %s for %q", pth, row.Raw, raw, head)
+						}
+					}
+					if ab.HasGrand != pb.HasGrand || ab.GrandRaw != pb.GrandRaw {
+						bad = fmt.Sprintf("grand total %q, the plain tree shows %q", ab.GrandRaw, pb.GrandRaw)
+					}
+				}
+				if bad != "" {
+					c.Violation("bal "+mode+"|layout-changes-content", bad, doc("", margs, alt, plain))
+				}
 			}
 		}
 		if i < 2 {
